@@ -50,6 +50,15 @@ def materialise(desc):
     elif fam == 'quantised':
         sc = scenes.quantised_scene(rng, nce=k.get('nce', 1))
         prm = {'call': base_prms(rng, sc, dict(k, bins=0)), 'glob': {}}
+    elif fam == 'ulp_dt':
+        sc = scenes.ulp_dt_scene(rng)
+        prm = {'call': {'MAX_HOLES_OKTA8': int(rng.choice([0, 1, 2])), 'MAX_HITS_OKTA0': int(rng.choice([0, 3]))}, 'glob': {}}
+    elif fam == 'regroup':
+        sc = scenes.regroup_scene(rng)
+        prm = {'call': {'MIN_SEP_VALS': [100.0, 1000.0], 'GROUPING_PRMS': {'height_pad_perc': 50.0}}, 'glob': {}}
+    elif fam == 'nsc_levels':
+        sc = scenes.nsc_levels_scene(rng)
+        prm = {'call': copy.deepcopy(scenes.PRMS_NSC_LEVELS), 'glob': {}}
     elif fam == 'manysplit':
         sc = scenes.many_split_scene(rng)
         prm = {'call': copy.deepcopy(scenes.PRMS_MANY_SPLIT), 'glob': {}}
@@ -84,6 +93,12 @@ def materialise(desc):
             idx.append(cnt.get(r[0], 0))
             cnt[r[0]] = idx[-1] + 1
         sc['index'] = idx
+    if k.get('index') == 'range_offset':
+        sc['index'] = list(range(133, 133 + len(sc['rows'])))          # e.g. df.iloc[133:] / df.tail(n): RangeIndex, start != 0
+        sc['index_kind'] = 'range'
+    elif k.get('index') == 'range_desc':
+        sc['index'] = list(range(len(sc['rows']) - 1, -1, -1))
+        sc['index_kind'] = 'range'
     if k.get('extra'):
         sc['extra'] = k['extra']
     if 'prm_over' in k:
